@@ -72,20 +72,31 @@ theorem convergents_eq (l : List Nat) (p q : Nat × Nat) :
     rw [convergents, ih, List.foldl_cons]
     simp only [stdStep, Nat.add_comm]
 
+/-- the working format of `as_fraction`: `log2(p) + 2` more exponent bits, same precision and
+    mode (the operand is cast into it exactly, so no iterate of the loop can overflow) -/
+def wideSem (s : Sem) : Sem := s.increaseExponent (s.logPrecision + 1)
+
+theorem wideSem_p (s : Sem) : (wideSem s).p = s.p := rfl
+theorem wideSem_rm (s : Sem) : (wideSem s).rm = s.rm := rfl
+theorem wideSem_e (s : Sem) : (wideSem s).e = s.e + (s.logPrecision + 1) := rfl
+
 /-- **the result of `as_fraction(n)` is the textbook convergent of the first `n` computed
     partial quotients** (normal `x`, `n ≥ 1`; for `n = 1` that is `(a0, 1)`). -/
 theorem asFraction_convergent (x : Flt) (n : Nat) (hx : x.cat = .normal) (hn : 1 ≤ n) :
     x.asFraction n
-      = stdConv ((fracLoop (Flt.one x.sem false) x.sem.rm (max n 2) x []).take n) := by
+      = stdConv ((fracLoop (Flt.one (wideSem x.sem) false) x.sem.rm (max n 2)
+          (x.cast (wideSem x.sem)) []).take n) := by
   unfold Flt.asFraction
   simp only [Flt.isZero, Flt.isInf, Flt.isNan, hx, show (Cat.normal == Cat.zero) = false from rfl,
     show (Cat.normal == Cat.inf) = false from rfl, show (Cat.normal == Cat.nan) = false from rfl,
     Bool.or_self, Bool.false_eq_true, if_false]
-  show (match fracLoop (Flt.one x.sem false) x.sem.rm (max n 2) x [] with
+  show (match fracLoop (Flt.one (wideSem x.sem) false) x.sem.rm (max n 2) (x.cast (wideSem x.sem)) [] with
     | a0 :: a1 :: rest => _
     | _ => _) = _
-  have hlen := fracLoop_length (Flt.one x.sem false) x.sem.rm (max n 2) x []
-  generalize fracLoop (Flt.one x.sem false) x.sem.rm (max n 2) x [] = l at hlen ⊢
+  have hlen := fracLoop_length (Flt.one (wideSem x.sem) false) x.sem.rm (max n 2)
+    (x.cast (wideSem x.sem)) []
+  generalize fracLoop (Flt.one (wideSem x.sem) false) x.sem.rm (max n 2)
+    (x.cast (wideSem x.sem)) [] = l at hlen ⊢
   match l, hlen with
   | [], h => simp at h; omega
   | [_], h => simp at h; omega
@@ -253,7 +264,8 @@ theorem cfEval_cfTerms_of_short (q : ℚ) (hq : 0 ≤ q) (n : Nat) (h : (cfTerms
     recurrence on the exact continued-fraction terms, the fraction is in lowest terms and its
     value is the finite continued fraction. -/
 theorem asFraction_exact_of_quotients (x : Flt) (n : Nat) (hx : x.cat = .normal) (hn : 1 ≤ n)
-    (h : (fracLoop (Flt.one x.sem false) x.sem.rm (max n 2) x []).take n = cfTerms |x.val| n) :
+    (h : (fracLoop (Flt.one (wideSem x.sem) false) x.sem.rm (max n 2) (x.cast (wideSem x.sem)) []).take n
+      = cfTerms |x.val| n) :
     x.asFraction n = stdConv (cfTerms |x.val| n) ∧
     Nat.Coprime (x.asFraction n).1 (x.asFraction n).2 ∧
     ((x.asFraction n).1 : ℚ) / ((x.asFraction n).2 : ℚ) = cfEval (cfTerms |x.val| n) := by
@@ -267,7 +279,8 @@ theorem asFraction_exact_of_quotients (x : Flt) (n : Nat) (hx : x.cat = .normal)
 
 /-- … and if moreover the expansion of `|x|` terminates within `n` terms, the fraction IS `|x|`. -/
 theorem asFraction_exact_value (x : Flt) (n : Nat) (hx : x.cat = .normal) (hn : 1 ≤ n)
-    (h : (fracLoop (Flt.one x.sem false) x.sem.rm (max n 2) x []).take n = cfTerms |x.val| n)
+    (h : (fracLoop (Flt.one (wideSem x.sem) false) x.sem.rm (max n 2) (x.cast (wideSem x.sem)) []).take n
+      = cfTerms |x.val| n)
     (hterm : cfTerms |x.val| (n + 1) = cfTerms |x.val| n) :
     ((x.asFraction n).1 : ℚ) / ((x.asFraction n).2 : ℚ) = |x.val| := by
   rw [(asFraction_exact_of_quotients x n hx hn h).2.2, ← hterm]
